@@ -344,14 +344,10 @@ Proof.
   rewrite (rect_radii_nonneg w h p q P1 Q1). unfold clamp_radii. simpl. rewrite P2, Q2. split; reflexivity.
 Qed.
 
-(* ---- known findings ----------------------------------------------------------------------------------- *)
-(* class use-symbol-percent-size *)
-Theorem symbol_use_side_guarded vp l : slen_relative l = false -> symbol_use_side vp l = spec_use_side vp l.
-Proof. destruct l as [[v|p]|]; simpl; intro H; try discriminate; reflexivity. Qed.
-Theorem symbol_use_side_refuted : exists vp l, slen_relative l = true /\ ~ symbol_use_side vp l == spec_use_side vp l.
-Proof. exists 200, (Some (LPct 50)). split; [reflexivity|]. intro H. vm_compute in H. discriminate. Qed.
+(* ---- use -> symbol size and nested svg (full strength since the fixes 72e1d38 and fb5447a) ------------------ *)
+Theorem symbol_use_side_spec vp l : symbol_use_side vp l == spec_use_side vp l.
+Proof. destruct l as [[v|p]|]; simpl; try reflexivity. field. Qed.
 
-(* class nested-svg-group-attrs-twice *)
 Lemma neutral_opacity st : gstyle_neutral st = true -> g_opacity st == 1.
 Proof.
   unfold gstyle_neutral. intro H. repeat (apply andb_true_iff in H as [H ?]). apply Qeqb_true. exact H.
@@ -361,44 +357,25 @@ Proof.
   unfold ts_is_identity, ts_eq, ts_identity, from_row. simpl. intro H.
   repeat (apply andb_true_iff in H as [H ?]). repeat split; apply Qeqb_true; assumption.
 Qed.
-(* with a neutral style and no transform attribute the nested svg converts like its expansion: every leaf gets
-   the same accumulated opacity and transform *)
 Ltac ts_crunch :=
   unfold ts_eq, ts_concat, ts_identity, from_row in *; simpl in *;
   repeat match goal with H : _ /\ _ |- _ => destruct H end;
   repeat split;
   repeat match goal with H : ?a == _ |- _ => rewrite H; clear H end; try ring.
-Theorem nested_svg_guarded t_attr st new_ts clip k sh :
-  gstyle_neutral st = true -> ts_is_identity t_attr = true ->
+(* a nested svg converts like its expansion: every leaf gets the same accumulated opacity and transform, whatever the
+   element's own style and transform attribute are *)
+Theorem nested_svg_as_groups t_attr st new_ts clip k sh :
   match leaves_of (convert_nested_svg t_attr st new_ts clip [TLeaf k sh]),
         leaves_of (expand_nested_svg t_attr st new_ts clip [TLeaf k sh]) with
   | [(i, o, t)], [(j, p, u)] => i = j /\ o == p /\ ts_eq t u
   | _, _ => False
   end.
 Proof.
-  intros Hn Hi. pose proof (neutral_opacity st Hn) as Ho. pose proof (ts_is_identity_eq t_attr Hi) as Ht.
-  unfold convert_nested_svg, expand_nested_svg, group_or_splice.
-  replace (is_g_or_use E_Svg) with false by reflexivity. rewrite Hn, Hi. simpl.
-  destruct clip as [c|]; simpl.
-  - destruct (ts_is_identity new_ts) eqn:En; simpl.
-    + pose proof (ts_is_identity_eq new_ts En) as Hnew. clear En Hi Hn.
-      split; [reflexivity|]. split; [rewrite Ho; ring|]. ts_crunch.
-    + clear En Hi Hn. split; [reflexivity|]. split; [reflexivity|]. ts_crunch.
-  - destruct (ts_is_identity (ts_concat t_attr new_ts)) eqn:En; simpl.
-    + pose proof (ts_is_identity_eq _ En) as Hnew. clear En Hi Hn.
-      split; [reflexivity|]. split; [rewrite Ho; ring|].
-      apply ts_eq_sym. eapply ts_eq_trans; [apply ts_concat_id_l|]. exact Hnew.
-    + clear En Hi Hn. split; [reflexivity|]. split; [reflexivity|]. ts_crunch.
-Qed.
-Theorem nested_svg_refuted :
-  exists t_attr st new_ts clip k sh,
-    match leaves_of (convert_nested_svg t_attr st new_ts clip [TLeaf k sh]),
-          leaves_of (expand_nested_svg t_attr st new_ts clip [TLeaf k sh]) with
-    | [(i, o, t)], [(j, p, u)] => ~ o == p
-    | _, _ => False
-    end.
-Proof.
-  exists ts_identity, {| g_opacity := 1 # 2; g_blend := 0%N; g_isolate := false; g_clip := None; g_mask := None; g_filter := [] |},
-         (from_translate 10 20), (Some 1%N), 5%N, 0%N.
-  vm_compute. intro H. discriminate.
+  unfold convert_nested_svg, expand_nested_svg, group_or_splice, svg_children.
+  replace (is_g_or_use E_Svg) with false by reflexivity. rewrite orb_false_r.
+  destruct (gstyle_neutral st) eqn:Hn; destruct (ts_is_identity t_attr) eqn:Hi; simpl;
+    destruct clip as [c|]; simpl; destruct (ts_is_identity new_ts) eqn:En; simpl;
+    try (pose proof (neutral_opacity st Hn) as Ho); try (pose proof (ts_is_identity_eq t_attr Hi) as Ht);
+    try (pose proof (ts_is_identity_eq new_ts En) as Hnew); clear Hn Hi En;
+    (split; [reflexivity|]); (split; [try rewrite Ho; ring|]); ts_crunch.
 Qed.
